@@ -480,6 +480,25 @@ func genC10(c *Ctx) {
 		}
 		s.Pump(1, 2, 40)
 		keys.observe(s)
+		// the reference as a sender: a text and a TLV-only message built from the sender's secrets alone (no
+		// padding, nothing disclosed) must be accepted and read by the real implementation
+		if s.ps[1].c.IsEncrypted() && s.ps[2].c.IsEncrypted() {
+			f := 1 + c.R.Intn(2)
+			t := []byte(fmt.Sprintf("built by the reference %x", c.R.Bytes(4)))
+			if s.Forge(f, fmt.Sprintf("CSend %s", coqBytes(t)), 0, t, nil) {
+				idx := len(s.ps[f].outs) - 1
+				plain, _ := s.Deliver(f, idx, 3-f, MNone)
+				s.ps[f].pending = idx + 1
+				keys.observe(s)
+				if !bytes.Equal(plain, t) {
+					c.Violate("reference-message-not-read", fmt.Sprintf("v%d", versionOf(pol)), fmt.Sprintf("a data message built by the independent implementation came back as %q", plain), s.trace)
+				}
+				c.Count("reference-built-message-delivered")
+				// the receiver's reply traffic still works
+				send(3-f, false)
+				s.Pump(1, 2, 10)
+			}
+		}
 		// refresh inside the session, started by either side
 		if i%3 == 0 {
 			b := 1 + c.R.Intn(2)
